@@ -14,8 +14,11 @@
      not distinguish them;
    - handlers are abstract: `hb h exc payload` is the outcome of constructing handler `h` and
      calling its reply() (Ok text, or Err e when it raises); replies are ASCII text;
-   - the message type "ERR" (the key of the error handler) is outside the domain: Python would
-     construct the error handler class with the wrong number of arguments. *)
+   - a message whose MSH-9 is literally "ERR" is routed to handlers["ERR"] like to any message
+     handler, i.e. the error handler class is constructed with ONE argument; what that does is up
+     to the class (`hb he None msg`; AbstractErrorHandler raises TypeError, which then reaches the
+     same handler again through the fallback).  The correspondence run instantiates `hb` with
+     well-behaved handlers and therefore leaves this message type out (it is probed and recorded). *)
 From Coq Require Import List Bool NArith Init.Byte.
 From HL7 Require Import Lib.Str Model.Result Model.Header Gen.Params.
 Import ListNotations.
